@@ -15,6 +15,7 @@
 #define decode_buffer delta_decode_buffer
 #include "delta_decoder.c"
 #include <stdio.h>
+#include <unistd.h>
 #include <stdlib.h>
 #include <string.h>
 
@@ -56,6 +57,7 @@ int main(void)
 	static char line[1 << 22];
 	static uint8_t buf[1 << 20], outb[(1 << 20) + 64];
 	while (fgets(line, sizeof line, stdin)) {
+		alarm(20);   // a filter that stops making progress must not hang the check
 		char cmd[16], arch[16]; unsigned enc; unsigned long long np, pm, pp, seed; int off = 0;
 		if (!strncmp(line, "code ", 5)) {
 			sscanf(line, "%15s %15s %u %llu %llu %llu %n", cmd, arch, &enc, &np, &pm, &pp, &off);
@@ -91,6 +93,18 @@ int main(void)
 			lzma_filter_info fi[3] = { { .id = 0, .init = NULL, .options = &opt }, { .id = 0, .init = &mock_init, .options = NULL }, { .id = LZMA_VLI_UNKNOWN, .init = NULL, .options = NULL } };
 			lzma_next_coder next = LZMA_NEXT_CODER_INIT;
 			lzma_ret ret = (enc ? ei[a] : di[a])(&next, NULL, fi);
+			if (ret == LZMA_OK && (seed & 4)) {
+				// the coder has a history: a short earlier stream (a prefix of the same data) was pushed through it,
+				// then it was initialised again without being freed
+				static const uint8_t alpha[] = { 0xE8, 0xE9, 0x00, 0xFF, 0x0F, 0x80, 0x44, 0x90, 0xEB, 0x48, 0x94, 0x67 };
+				uint8_t prior[24]; size_t k = 1 + rnd() % 16;
+				for (size_t q = 0; q < k; q++) prior[q] = (rnd() % 4 == 0) ? (uint8_t)rnd() : alpha[rnd() % sizeof alpha];
+				if (rnd() % 3 == 0) { k = k < n ? k : n; memcpy(prior, buf, k); }
+				else if (rnd() % 2 == 0) { if (k < 5) k = 5 + rnd() % 8; prior[0] = (rnd() & 1) ? 0xE8 : 0xE9; prior[4] = 0x44; }   // an opcode byte that is not a call: leaves the x86 filter's history mask set
+				size_t i2 = 0, o2 = 0; uint8_t tmp[64];
+				for (int g = 0; g < 8; g++) { lzma_ret pr = next.code(next.coder, NULL, prior, &i2, k, tmp, &o2, sizeof tmp, (rnd() & 1) ? LZMA_FINISH : LZMA_RUN); if (pr != LZMA_OK) break; }
+				ret = (enc ? ei[a] : di[a])(&next, NULL, fi);
+			}
 			size_t ip = 0, op = 0; int guard = 0;
 			unsigned mode = (unsigned)(seed & 3);  // 0: one-shot, 1: 1-byte in, 2: 1-byte out, 3: random
 			while (ret == LZMA_OK && guard++ < 4000000) {
